@@ -190,8 +190,33 @@ def check_C04(ctx, rep):
                 a0, lo, hi = inner[2]
                 if is_call(a0, 'Dist::sample') and num(hi) is not None and num(hi) <= day:
                     okmin = True
-            rep.ob('C04.R3', fn, 'clamped-return:' + (cname or '?'), ok and okmin, 'returns %s' % shape(v))
+            # informational only: the binding obligation is the output-level cap below (the cap may live in a helper or the caller)
+            rep.extra.setdefault('sampler_clamps', []).append({'fn': fn.short(), 'returns': shape(v), 'clamped_inside': bool(ok and okmin), 'constant': cname})
         rep.count_floor('C04.R3', 'non-constant returns of %s' % name, n_nonconst, 1)
+    # the same at the output: every timeout/duration of a scheduled TriggerAction passes through min(sample, C <= 24h)
+    for (site, var, flds, ln) in ta:
+        for fname in ('timeout', 'duration'):
+            if fname not in flds:
+                continue
+            e = expand_calls(ctx, flds[fname], depth=3)
+
+            def capped_expr(x0):
+                # every alternative of the value is a small constant or carries a min(sample, C <= 24h)
+                if x0[0] == 'phi':
+                    return all(capped_expr(a) for a in x0[1])
+                if num(x0) is not None:
+                    return num(x0) <= day
+                if x0[0] == 'cast' or (x0[0] == 'call' and (x0[1].endswith('::round') or x0[1].endswith('from_micros'))):
+                    inner = x0[3] if x0[0] == 'cast' else x0[2][0]
+                    return capped_expr(inner)
+                if is_call(x0, '::min') and len(x0[2]) == 2:
+                    a0, a1 = x0[2]
+                    return any(contains(s_, lambda y: is_call(y, 'Dist::sample')) and num(c_) is not None and num(c_) <= day for s_, c_ in ((a0, a1), (a1, a0)))
+                if is_call(x0, '::clamp') and len(x0[2]) == 3:
+                    return num(x0[2][2]) is not None and num(x0[2][2]) <= day
+                return False
+            capped = capped_expr(e)
+            rep.ob('C04.R3', sa, 'output-capped:%s.%s' % (var, fname), capped, '%s = %s' % (fname, shape(e)))
     for c in ('MAX_SAMPLED_TIMEOUT', 'MAX_SAMPLED_TIMER_DURATION', 'MAX_SAMPLED_BLOCK_DURATION'):
         val = float(prog.const_val('maybenot::constants::' + c))
         rep.ob('C04.R3', 'constants', c, val <= day, '%s = %s' % (c, val))
@@ -401,6 +426,34 @@ def check_C08(ctx, rep):
                 oks = lo >= 1
             rep.ob('C08.R3', fn, '%s:same-flag-set-with-request' % cf, oks, 'zeroed_once[mi].%s = true accompanies the request' % k)
     rep.ob('C08.R4', fn, 'flags-distinct-per-counter', seen_k == {'0', '1'}, 'flags tested: %s' % sorted(seen_k))
+    # completeness: a path that updated counter k reaches the recursion test either with the request made or after
+    # crossing a FALSE edge of one of the three tests (no additional condition may suppress CounterZero)
+    rsl = lambda pe, val: pe == ('local', flag_local)
+    pfr = an.paths(fn, record_stores=rsl, tag='request')
+    rec_test = None
+    for d in sorted(fa.cfg.dom()[rec_calls[0][0]], reverse=True):
+        if fa.blocks[d]['t']['k'] == 'switch' and d != rec_calls[0][0]:
+            rec_test = d
+            break
+    if rec_test is not None:
+        for S in pfr.at_entry(rec_test):
+            for (cf, k, other) in table:
+                updated = any(f[0] == 'variant' and f[2] == 'Some' and unload(f[1])[0] == 'fld' and unload(f[1])[3] == k and is_field(unload(f[1])[1], 'counter', 'State') for f in S)
+                if not updated:
+                    continue
+                requested = any(f[0] == 'stored' and f[2] == ('local', flag_local) and is_const(f[3], 1) for f in S)
+                old_zero = has_cmp(S, 'ne', lambda l: is_field(l, cf, 'MachineRuntime'), lambda r: is_const(r, 0), False)
+                new_nonzero = has_cmp(S, 'eq', lambda l: is_field(l, cf, 'MachineRuntime') or unload(l)[0] == 'deref', lambda r: is_const(r, 0), False)
+                def is_flag(e, k=k):
+                    e = unload(e)
+                    if not (isinstance(e, tuple) and len(e) == 4 and e[0] == 'fld' and e[3] == k):
+                        return False
+                    ix, base = idx_of(e[1])
+                    return base is not None and is_field(base, 'counter_zeroed_once', 'Framework')
+                flag_set = any(f[0] == 'btrue' and f[2] is True and is_flag(f[1]) for f in S)
+                okc = requested or old_zero or new_nonzero or flag_set
+                rep.ob('C08.R3', fn, '%s:zeroing-always-requests-CounterZero' % cf, okc,
+                       '' if okc else 'a path updates %s and reaches the recursion test without a request although none of the three tests failed: %s' % (cf, show_facts(S)))
     # the test of new == 0 reads the stored counter (same place as the store)
     # R4 flags writers
     for name, f2 in F.items():
@@ -737,6 +790,31 @@ def broadcast_helper_ok(ctx, helper, ei):
     return True
 
 
+def check_every_event_processed(ctx, rep, rid):
+    """trigger_events hands every element of the events slice to process_event: the event loop is entered on every
+    path (not guarded by the machines' state) and every iteration makes the call"""
+    prog, an = ctx.prog, ctx.an
+    F = fw_fns(prog)
+    te = F['trigger_events']
+    ta = an.get(te)
+    loops = ta.cfg.loops()
+    pe_calls = [b for (b, f, a, t) in calls(ta) if callee_key(f) == F['process_event'].key]
+    hs = [h for h, body in loops.items() if any(b in body for b in pe_calls)]
+    if len(pe_calls) != 1 or len(hs) != 1:
+        rep.ob(rid, te, 'event-loop-shape', False, 'process_event sites %d, enclosing loops %d' % (len(pe_calls), len(hs)))
+        return
+    h = hs[0]
+    body = loops[h]
+    lo, hi = min_max_on_paths(ta, 0, {h}, ta.cfg.reachable_from(0))
+    rep.ob(rid, te, 'event-loop-entered-on-every-path', lo >= 1, 'paths from entry to return that pass the event loop header: min %s' % lo)
+    lo, hi = min_max_on_paths(ta, h, set(pe_calls), body, stop_at_header=True)
+    rep.ob(rid, te, 'every-event-processed', (lo, hi) == (1, 1), 'process_event calls per iteration: min %s max %s' % (lo, hi))
+    exits_ok = all(ta.blocks[y]['t']['k'] == 'unreachable' or (ta.blocks[x]['t']['k'] == 'switch') for x in body for (y, l) in ta.cfg.succ[x] if y not in body)
+    # the loop header is not itself behind a condition on machine state: no switch dominating it reads runtime
+    guards = [b for (b, e) in switch_conditions(ta) if ta.cfg.dominates(b, h) and b != h and contains(e, lambda x: isinstance(x, tuple) and x and x[0] == 'fld' and x[3] in ('runtime', 'actions', 'machines'))]
+    rep.ob(rid, te, 'event-loop-not-conditional-on-machine-state', not guards, '%d guarding branches' % len(guards))
+
+
 def check_C10(ctx, rep):
     prog, an = ctx.prog, ctx.an
     F = fw_fns(prog)
@@ -903,6 +981,9 @@ def check_C10(ctx, rep):
                     called = any(f[0] == 'called' and f[3] == cb for f in S)
                     oor = cmp_int_true(S, 'le', lambda l: is_call(l, 'len'), lambda r2: is_call(r2, 'into_raw'))
                     rep.ob('C10.R3', pe_fn, 'arm:%s:return-only-after-transition-or-out-of-range' % var, called or oor, '' if (called or oor) else show_facts(S))
+    from .rules_limits import rule_dispatch_discipline
+    rule_dispatch_discipline(ctx, rep, 'C10.R3', ())
+    check_every_event_processed(ctx, rep, 'C10.R3')
     rep.assumptions += ['the framework-wide fraction limits are a sanctioned coupling (reads of the global counters in the limit predicates)',
                         'shared blocking state reported by the integrator is a sanctioned coupling']
     return 'inventory of shared writes and index uses in the per-machine step functions; delivery completeness of global events'
